@@ -41,8 +41,12 @@ pub fn boxcox_shifted(x: f64, lambda: f64, alpha: f64) -> f64 {
 /// each of the components are in the interval (0, 1) and the components add up to 1. Larger input
 /// components correspond to larger probabilities.
 pub fn softmax(x: &[f64]) -> Vec<f64> {
-    let sum_exp: f64 = x.iter().map(|i| i.exp()).sum();
-    x.iter().map(|i| i.exp() / sum_exp).collect()
+    // shift by the maximum: every exponent is then <= 0 (no overflow) and the largest term is
+    // exactly 1 (the denominator cannot underflow to 0). The result is mathematically unchanged.
+    let max = x.iter().cloned().fold(f64::NEG_INFINITY, f64::max);
+    let exps: Vec<f64> = x.iter().map(|i| (i - max).exp()).collect();
+    let sum_exp: f64 = exps.iter().sum();
+    exps.iter().map(|e| e / sum_exp).collect()
 }
 
 const ERF_P: f64 = 0.3275911;
